@@ -49,7 +49,7 @@ func msgInfos(cb *compiled) []msgInfo {
 
 func progWith(body []ref.Cmd, extraBefore, extraAfter []ref.Cmd) *ref.Program {
 	all := append(append(append([]ref.Cmd{}, extraBefore...), body...), extraAfter...)
-	return &ref.Program{Files: []ref.File{{Name: "m.soy", Namespace: "m", Templates: []ref.Template{{Name: "t", Body: all}}}}}
+	return &ref.Program{Globals: gen.MsgGlobals, Files: []ref.File{{Name: "m.soy", Namespace: "m", Templates: []ref.Template{{Name: "t", Body: all}}}}}
 }
 
 func compileMsgs(p *ref.Program, reverseFiles bool) ([]msgInfo, error) {
@@ -60,7 +60,7 @@ func compileMsgs(p *ref.Program, reverseFiles bool) ([]msgInfo, error) {
 			srcs[i], srcs[j] = srcs[j], srcs[i]
 		}
 	}
-	cb, err, pn := compileBundle(names, srcs, nil)
+	cb, err, pn := compileBundle(names, srcs, p.Globals)
 	if err != nil || pn != nil {
 		return nil, fmt.Errorf("%v %v\n%s", err, pn, showSources(names, srcs))
 	}
